@@ -99,10 +99,10 @@ PROPS = {
                "sizeof/offsetof of the public header struct reported as runtime facts; non-trivial = every encode; distinct = (config, switch, length, data kind)",
                flavours=("asan", "plain", "clang")),
     "C08": fmt("C08", "case = block of lengths for one config: the three size queries vs the arithmetic model and vs what encode(len) actually produces (fragment_len, header size/orig fields); all lengths 0..4A+1, windows around multiples of A up to 64 KiB, powers of two +-1 up to 2^20; "
-               "dead/unknown descriptors must answer negative; non-trivial = every length; distinct = (config, length)"),
+               "dead/unknown descriptors must answer negative; an anchor instance stays alive across the whole sweep (100+ other instances created and destroyed) and is re-queried after every configuration; non-trivial = every length; distinct = (config, length)"),
     "C09": fmt("C09", "mutated copies of headers encode produced: all 640 single-bit flips, every byte set to 3 seeded values, multi-byte edits, version/magic/endianness rewrites with and without re-sealing with either CRC variant, half-correct CRCs, padding edits; "
                "oracle = raw-byte acceptance predicate; observed through get_fragment_metadata, is_invalid_fragment_header, decode and reconstruct (-EBADHEADER for rejected or opposite-endian headers), before/after byte comparison; "
-               "mutants the reference accepts that enlarge size fields are discarded (forged input); non-trivial = every mutant; distinct = mutated header bytes per config",
+               "mutants the reference accepts that enlarge size fields are discarded (forged input); a header refused late by decode (valid by the equation, logical size >= 2^31) after an earlier slot was replaced must leave every fragment of the stripe untouched and valid; non-trivial = every mutant; distinct = mutated header bytes per config",
                exhaustive_scope="the 640 single-bit flips of each examined header are exhaustive; other mutation classes are sampled"),
     "C10": fmt("C10", "stored payload checksum of every encoded and reconstructed fragment vs bitwise CRC-32 (standard / historical per LIBERASURECODE_WRITE_LEGACY_CRC in {unset,'','0','1','yes'}); chksum_mismatch and is_invalid_fragment under every single-bit payload flip (payload<=256B), bursts, byte edits, forged stored values; "
                "cross-switch validation; liberasurecode_crc32_alt vs bitwise historical model on random buffers; non-trivial = corrupted payload or legacy buffer block; distinct = corrupted fragment bytes"),
@@ -124,7 +124,7 @@ PROPS = {
                  "oracle = fragment kept from encode (all fragment_len bytes) / rc<0 for bad d; non-trivial = destination among the erased ones or out of range; distinct = (config, erasure set, destination)"),
     "C04": codec("C04", "exploration",
                  "all 496 generators entry by entry vs closed form L_j(r)/L_j(k) over shift-and-xor GF(2^16); every k-subset of rows for n<=12/16 by the monitor's own elimination; "
-                 "parity payloads from the public encode vs model parity; non-trivial = every shape / stripe; distinct = (k,m) or (config,length)",
+                 "each generator asked for three times (another shape in between) and compared; parity payloads from the public encode vs model parity, also through a second instance of the same configuration; parity rebuilt with data lost vs model; non-trivial = every shape / stripe; distinct = (k,m) or (config,length)",
                  flavours=("asan", "plain", "clang"),
                  exhaustive={"quick": True, "thorough": True},
                  exhaustive_scope="all 496 (k,m) generators, every entry; all C(n,k) row subsets for n<=12 (quick) / n<=16 (thorough)"),
@@ -136,15 +136,15 @@ PROPS = {
                  exhaustive_scope="38 tables x all erasure sets with |E|<hd (decode and reconstruct); payload sizes and data are sampled"),
     "C06": codec("C06", "exploration",
                  "case = fragments_needed(R, X) for disjoint R!=empty, X with |R|+|X| within tolerance, three list orders; output array ends at a guard page; "
-                 "oracle = terminator, range, distinctness, disjointness, GF rank span, |N|=k for RS, follow-up reconstruct from exactly N; non-trivial = every query; distinct = (config, R, X, order)",
+                 "oracle = terminator, range, distinctness, disjointness, GF rank span, |N|=k for RS, follow-up reconstruct from exactly N; queries that name a fragment more than once (at most k+m entries) are judged only by error-or-correct-list; non-trivial = every query; distinct = (config, R, X, order)",
                  exhaustive_scope="all (R,X) for every XOR table and RS shapes where the count fits the cap (counter configs_exhaustive_RX)"),
     "C19": codec("C19", "exploration",
                  "C01/C02/C03/C06 monitors on isa_l_rs_vand and isa_l_rs_cauchy running on the clean-room libisal.so.2, success required iff the first k surviving rows are invertible over GF(2^8) (monitor's elimination); "
-                 "plus every position of an injected gf_invert_matrix failure in a scripted workload; non-trivial/distinct as in the respective monitor",
+                 "fragments_needed queries naming a fragment more than once must be answered when the distinct set is within tolerance; plus every position of an injected gf_invert_matrix failure in a scripted workload; non-trivial/distinct as in the respective monitor",
                  modes=("roundtrip", "nosilent", "reconstruct", "needed", "faults")),
     "C20": codec("C20", "exploration",
                  "case = decode(force_metadata_checks=1) on survivors S with damaged subset B (payload bit flip under CRC32, or re-sealed header edit: idx out of range, backend id, backend version, newer library version); "
-                 "oracle = original bytes required iff S minus B within tolerance, otherwise error or exact original; never other bytes; non-trivial = B non-empty; distinct = (config, S, B, first damage kind)"),
+                 "in half of the cases the presented fragments are validated while intact and damaged in place afterwards; oracle = original bytes required iff S minus B within tolerance, otherwise error or exact original; never other bytes; non-trivial = B non-empty; distinct = (config, S, B, first damage kind)"),
 }
 
 # thorough tier: number of seeds the whole workload is repeated under (see check.py)
